@@ -25,7 +25,7 @@
    PART 3 classifies the generated inventory of internal invocations (Gen/GenInternalGit.v). *)
 From Coq Require Import List NArith Bool.
 From Coq Require Import Init.Byte Strings.Byte.
-From Verif Require Import Base.Str Gen.GenProfile Gen.GenInternalGit.
+From Verif Require Import Base.Str Gen.GenProfile Gen.GenInternalGit Gen.GenStateProbes.
 Import ListNotations.
 Open Scope N_scope.
 
@@ -741,7 +741,7 @@ Definition lits_ok (p : profile) (lits : list str) : bool :=
 
 Definition extra_ok (k : parser_kind) (lits : list str) : bool :=
   match k with
-  | PKBlame => has_lit lits "--line-porcelain" || has_lit lits "--porcelain"
+  | PKBlame => (has_lit lits "--line-porcelain" || has_lit lits "--porcelain") && has_lit lits "--no-textconv"
   | PKStatus => has_lit_prefix lits "--porcelain" && has_lit lits "-z" && has_lit_prefix lits "--untracked-files="
   | PKGrep => has_lit lits "--no-color" || has_lit lits "--color=never"
   | _ => true
@@ -761,9 +761,7 @@ Definition entry_ok (e : inv_entry) : bool :=
    ok) — see inventory_exceptions_tight. *)
 Definition exceptions : list (str * str * str) :=
   map (fun x => match x with (a, b, c) => (s2l a, s2l b, s2l c) end)
-  [ ("src/git/refs.rs", "grep_ai_notes",
-     "UNCOVERED: git grep -nI without --no-color under General: the records follow color.ui / color.grep (git-ai search only)");
-    ("src/authorship/range_authorship.rs", "get_git_diff_stats_for_range",
+  [ ("src/authorship/range_authorship.rs", "get_git_diff_stats_for_range",
      "numstat without -z: paths are quoted per core.quotePath; only matched against ignore patterns (stats)");
     ("src/authorship/stats.rs", "get_git_diff_stats",
      "numstat without -z: paths are quoted per core.quotePath; only matched against ignore patterns (stats)");
@@ -813,3 +811,17 @@ Definition entry_report (e : inv_entry) : N * bool * bool :=
            end in
   ((match k with PKPatch => 1 | PKNumstat => 2 | PKPathList => 3 | PKBlame => 4 | PKStatus => 5
               | PKGrep => 7 | PKFormatted => 6 | PKOpaque => 0 end), entry_ok e, is_exception e).
+
+(* ================================================================================ PART 4 *)
+(* Where per-work-tree operation state is looked up.  git keeps CHERRY_PICK_HEAD, MERGE_HEAD, sequencer/,
+   rebase-merge/ ... in the git directory of the work tree (for a linked work tree: <common>/worktrees/<name>),
+   so a probe through the shared directory (kind 1 = Repository::common_dir) sees the MAIN work tree's state. *)
+Definition probe_kind (x : list N * list N * list N * N) : N := snd x.
+
+Definition state_probes_ok (probes : list (list N * list N * list N * N)) : bool :=
+  forallb (fun x => negb (probe_kind x =? 1)) probes.
+
+(* the sequencer / rebase probes of the command hooks all go through Repository::path *)
+Definition hook_probes_per_worktree (probes : list (list N * list N * list N * N)) : bool :=
+  forallb (fun x => match x with (f, _, _, k) =>
+             negb (starts_with (s2l "src/commands/hooks/") f) || (k =? 0) end) probes.
